@@ -187,7 +187,9 @@ class ZConfigParser:
         if defname in self.defines:
             if self.defines[defname] != defvalue:
                 self.error("cannot redefine " + repr(defname))
-        if not isname(defname):
+        # judge the name as written: lower-casing can turn a character that
+        # no reference can spell (KELVIN SIGN) into an ASCII letter
+        if not isname(parts[0]):
             self.error("not a substitution legal name: " + repr(defname))
         self.defines[defname] = defvalue
 
